@@ -48,6 +48,7 @@ func runC09(c *Ctx) {
 	}
 	c09InProcess(c)
 	c09E2E(c)
+	c09Refused(c)
 }
 
 type c09Case struct {
